@@ -95,7 +95,9 @@ constexpr bool is_perfect_square(uint64_t n) {
     uint64_t prev = n / 2u;
     while (true) {
         const uint64_t curr = (prev + n / prev) / 2u;
-        if (curr * curr == n) {
+        // Test `curr * curr == n` by division: for large `curr` the product wraps around, and the
+        // wrapped value can coincide with `n` even though `n` is not a perfect square.
+        if ((n / curr == curr) && (n % curr == 0u)) {
             return true;
         }
         if (curr >= prev) {
